@@ -186,6 +186,12 @@ def trace_leg(ctx: Ctx, n: int):
             case["p"] = r["p"]
         ctx.violation(case, {"verdict": v, "observed": {k: r.get(k) for k in ("err", "toks", "err2", "toks2", "exprs") if k in r}}, kind="trace")
     ctx.notes["trace_records_by_kind"] = kinds
+    judged = {}
+    for r in recs:
+        if rejected.get(r["id"], "") != "skip":
+            judged[r["kind"]] = judged.get(r["kind"], 0) + 1
+    for kind in ("lex", "ws", "vb", "py"):
+        ctx.require(f"trace leg: judged records of kind {kind}", judged.get(kind, 0), 3 if kind == "py" else 20)
     ctx.sample({"trace_record": {k: v for k, v in recs[0].items() if k != "chars"}})
 
 
